@@ -35,12 +35,13 @@ def tp(p):
 class Gen:
     def __init__(self, seed, profile="eval", nspaces=3, ncells=6, p_raise=0.06,
                  p_none=0.05, p_catch=0.08, p_uncached=0.25, p_lambda=0.2,
-                 obj_refs=True, allow_catch=True, p_base_exc=0.0):
+                 obj_refs=True, allow_catch=True, p_base_exc=0.0, p_rr=0.0):
         self.rng = random.Random(seed)
         self.profile = profile
         self.p_raise, self.p_none, self.p_catch = p_raise, p_none, p_catch
         self.p_uncached, self.p_lambda = p_uncached, p_lambda
         self.p_base_exc = p_base_exc
+        self.p_rr = p_rr
         self.obj_refs = obj_refs
         self.allow_catch = allow_catch
         self.hot = []        # cells whose formulas ran in the most recent call (locality bias)
@@ -187,27 +188,7 @@ class Gen:
         for _ in range(nops):
             k = rng.random()
             if k < 0.45 and lower:
-                p, c = rng.choice(lower)
-                paths = self.space_paths(sp, p)
-                path = rng.choice(paths) + [c]
-                cps = self.sigs[c]
-                args = []
-                nargs = len(cps)
-                if cps and cps[-1][1] == 1 and rng.random() < 0.5:
-                    nargs -= 1          # rely on the default
-                for i in range(nargs):
-                    if ps and rng.random() < 0.7:
-                        args.append([rng.choice(["k", "k", "dec"]), rng.randrange(len(ps)) + 1])
-                    else:
-                        args.append(["c", rng.choice(KEYS[:3])])
-                spell = rng.choice(["pos", "pos", "kw"])
-                if len(path) > 1:
-                    spell = rng.choice(["pos", "kw", "sub", "value"])
-                if spell == "sub" and not args:
-                    spell = "pos"
-                if spell == "value" and args:
-                    spell = "pos"
-                ops.append(["call", path, args, spell])
+                ops.append(self.mk_call_op(sp, ps, lower))
             elif k < 0.55 and ps:
                 # self recursion on the first parameter, guarded
                 args = [["dec", 1]] + [["k", i + 1] for i in range(1, len(ps))]
@@ -233,7 +214,36 @@ class Gen:
             style = "lambda"
         frec = {"ps": ps, "ops": ops, "catch": catch, "onerr": rng.choice([900, 901]),
                 "style": style}
+        if style == "def" and not catch and lower and rng.random() < self.p_rr:
+            # a handler that looks at another element (whose failure it handles itself)
+            # and then re-raises: transparent for the value, not for the bookkeeping
+            frec["style"] = "defrr"
+            frec["probe"] = self.mk_call_op(sp, ps, lower)
         return self.new_fid(frec)
+
+    def mk_call_op(self, sp, ps, lower):
+        rng = self.rng
+        p, c = rng.choice(lower)
+        paths = self.space_paths(sp, p)
+        path = rng.choice(paths) + [c]
+        cps = self.sigs[c]
+        args = []
+        nargs = len(cps)
+        if cps and cps[-1][1] == 1 and rng.random() < 0.5:
+            nargs -= 1          # rely on the default
+        for i in range(nargs):
+            if ps and rng.random() < 0.7:
+                args.append([rng.choice(["k", "k", "dec"]), rng.randrange(len(ps)) + 1])
+            else:
+                args.append(["c", rng.choice(KEYS[:3])])
+        spell = rng.choice(["pos", "pos", "kw"])
+        if len(path) > 1:
+            spell = rng.choice(["pos", "kw", "sub", "value"])
+        if spell == "sub" and not args:
+            spell = "pos"
+        if spell == "value" and args:
+            spell = "pos"
+        return ["call", path, args, spell]
 
     # ------------------------------------------------------------------
     def all_cells(self):
